@@ -339,7 +339,9 @@ pub fn run_c01(outdir: &str, seed: u64, thorough: bool) -> serde_json::Value {
         // the number of groups per unit is not capped (the cap draws RANDOM() ranks, which two executions do not share)
         let p: DpParameters = if pinned { DpParameters::from_epsilon_delta(1.0, 1e-5) } else { let q = gen_params(&mut r);
             // (a zero multiplicity makes every clipping bound 0 and the scale factor the literal 0: that case belongs to C03)
-            let (m, ms) = (if q.privacy_unit_max_multiplicity == 0.0 { 100.0 } else { q.privacy_unit_max_multiplicity }, if q.privacy_unit_max_multiplicity_share == 0.0 { 0.1 } else { q.privacy_unit_max_multiplicity_share });
+            // one such case in three is kept for the neighbour oracle alone: nothing of a unit may then reach the sums
+            let keep_zero = r.chance(1, 3);
+            let (m, ms) = (if q.privacy_unit_max_multiplicity == 0.0 && !keep_zero { 100.0 } else { q.privacy_unit_max_multiplicity }, if q.privacy_unit_max_multiplicity_share == 0.0 && !keep_zero { 0.1 } else { q.privacy_unit_max_multiplicity_share });
             DpParameters::new(q.epsilon, q.delta, q.tau_thresholding_share, m, ms, 1000) };
         let rel = match catch_unwind(AssertUnwindSafe(|| to_relation(&w, &sql))) { Ok(Ok(rel)) => rel, _ => continue };
         let rw = match catch_unwind(AssertUnwindSafe(|| rel.rewrite_with_differential_privacy(&w.relations, None, w.privacy_unit.clone(), p.clone()))) { Ok(Ok(rw)) => rw, _ => { st.bump("rewrite_failed"); continue; } };
@@ -411,7 +413,9 @@ pub fn run_c01(outdir: &str, seed: u64, thorough: bool) -> serde_json::Value {
                 }
             }
         }
-        if !unclipped.is_empty() && problems.len() < 5 { problems.push(json!({"what":"correspondence: a noised sum whose input is not clipped per privacy unit (no _CLIPPED_ column / scale factor found below it)","query":sql,"columns":unclipped.clone()})); }
+        let zero_bound = p.privacy_unit_max_multiplicity == 0.0 || p.privacy_unit_max_multiplicity_share == 0.0;
+        if zero_bound { st.bump("zero_multiplicity_cases"); }
+        if !unclipped.is_empty() && !zero_bound && problems.len() < 5 { problems.push(json!({"what":"correspondence: a noised sum whose input is not clipped per privacy unit (no _CLIPPED_ column / scale factor found below it)","query":sql,"columns":unclipped.clone()})); }
         unclipped.clear();
         if made <= 2 { st.sample(json!({"query":sql,"sites":sites.iter().map(|s| json!({"column":s.column,"sigma":s.sigma,"clip":s.clip})).collect::<Vec<_>>()})); }
     }
@@ -612,7 +616,8 @@ pub fn run_c04(outdir: &str, seed: u64, thorough: bool) -> serde_json::Value {
         let (e, d) = (p.epsilon * p.tau_thresholding_share, p.delta * p.tau_thresholding_share);
         let sig_want = (2.0 * (1.25f64 / d).ln()).sqrt() / e * (cu as f64).sqrt();
         let q = (1.0 - d).powf(1.0 / cu as f64);
-        let tau_want = 1.0 + sig_want * inv_norm(q);
+        // ... computed for the noise the plan really draws: a larger sigma than the budget requires needs a larger threshold too
+        let tau_want = 1.0 + (if sigma.is_finite() { sigma.max(sig_want) } else { sig_want }) * inv_norm(q).max(0.0);
         st.evaluations += 1;
         if !(tau >= tau_want - 1e-6 * tau_want.abs().max(1.0)) || !(sigma >= sig_want * (1.0 - 1e-9)) {
             st.violation(json!({"kind":"threshold-below-required-tau","query":sql,"epsilon":p.epsilon,"delta":p.delta,"share":p.tau_thresholding_share,"cu":cu,"tau_in_plan":tau,"tau_required":tau_want,"sigma_in_plan":sigma,"sigma_required":sig_want}));
